@@ -412,6 +412,18 @@ def oracle_lame(rng, n, R):
                            f"({a}, {b}) of (lambda={lam}, mu={mu}) gives ({l2:.6g}, {m2:.6g})", args=args, lam=lam, mu=mu)
             except Exception as e:  # noqa
                 R.fail(f"C17:lame_parameters:{a}_{b}:raises", f"raises {type(e).__name__}: {str(e)[:120]}", args=args)
+    for lam, mu in ((-0.25, 1.0), (-0.5, 2.0)):
+        truth = consts(lam, mu)         # nu = lam / (2 (lam + mu)) in (-1, 0): a valid (auxetic) material
+        for a, b in (("shear", "poisson"), ("poisson", "young"), ("first", "second")):
+            R.tick("lame")
+            args = {PAIRS[a]: truth[a], PAIRS[b]: truth[b]}
+            try:
+                l2, m2 = L.lame_parameters(**args)
+                if abs(l2 - lam) > 1e-9 or abs(m2 - mu) > 1e-9:
+                    R.fail("C17:lame_parameters:negative-poisson-wrong", f"nu = {truth['poisson']:.4g}: gives ({l2:.6g}, {m2:.6g}), expected ({lam}, {mu})", args=args)
+            except Exception as e:  # noqa
+                R.fail("C17:lame_parameters:negative-poisson-raises",
+                       f"({a}, {b}): valid constants with Poisson's ratio {truth['poisson']:.4g} in (-1, 0): raises {type(e).__name__}: {str(e)[:100]}", args=args)
     R.tick("lame")
     try:
         L.lame_parameters(second_parameter=1.0, shear_modulus=1.0)
@@ -423,7 +435,7 @@ def oracle_lame(rng, n, R):
 def oracle_ic(rng, n, R):
     for it in range(n):
         D = rng.choice([2, 3])
-        size = [rng.choice([5, 6, 9]) for _ in range(D)]
+        size = [[5, 6, 9][(it + d) % 3] for d in range(D)]          # never square
         spacing = [rng.choice([0.5, 1.0, 2.0]) for _ in range(D)]
         ac = bool(it % 2)
         g = Grid(size=tuple(size), spacing=tuple(spacing), align_corners=ac)
@@ -466,6 +478,22 @@ def oracle_ic(rng, n, R):
             v = L.inverse_consistency_loss(fwd, inv, grid=g, margin=mg, reduction="none")
             if list(v.shape[1:]) != [n_ - 2 * mg for n_ in reversed(size)]:
                 R.fail("C17:inverse_consistency_loss:margin-shape", f"margin={mg} gives shape {list(v.shape)}", **base)
+            fm = rng.choice([0.2, 0.3, 0.35])
+            v = L.inverse_consistency_loss(fwd, inv, grid=g, margin=fm, reduction="none")
+            wantf = [n_ - 2 * int(fm * n_) for n_ in reversed(size)]
+            if list(v.shape[1:]) != wantf:
+                R.fail("C17:inverse_consistency_loss:float-margin-shape",
+                       f"margin={fm} on a grid of size {size} gives shape {list(v.shape[1:])}, expected {wantf} (int(margin * n) points per border of each axis)", **base)
+            # mean over the mask: with a margin and with a batch of transformations
+            fwd2, inv2 = fwd.repeat(2, 1, 1), inv.repeat(2, 1, 1)
+            ones = torch.ones([1, 1] + list(reversed(size)))
+            for mgn, bt in ((0, 2), (1, 1), (1, 2)):
+                f_, i_ = (fwd2, inv2) if bt == 2 else (fwd, inv)
+                mm = L.inverse_consistency_loss(f_, i_, grid=g, mask=ones, margin=mgn, reduction="mean")
+                if not close(mm, want["cube"], 1e-6):
+                    R.fail("C17:inverse_consistency_loss:mask-mean-count",
+                           f"mean error with an all-ones mask, margin={mgn}, batch={bt}: {float(mm):.6g}, every point has error {want['cube']:.6g}",
+                           margin=mgn, batch=bt, **base)
             mask = torch.zeros([1, 1] + list(reversed(size)))
             mask[(0, 0) + tuple(slice(1, 3) for _ in range(D))] = 1
             mm = L.inverse_consistency_loss(fwd, inv, grid=g, mask=mask, reduction="mean")
@@ -478,7 +506,7 @@ def oracle_ic(rng, n, R):
 def oracle_modules(rng, n, R):
     for it in range(n):
         D = rng.choice([2, 3])
-        size = [rng.choice([5, 6]) for _ in range(D)]
+        size = [[5, 6, 7][(it + d) % 3] for d in range(D)]          # never square
         u = rnd_field(rng, size)
         spacing = [rng.choice([0.5, 2.0]) for _ in range(D)]
         mode = rng.choice(["forward_central_backward", "sobel", "central"])
@@ -492,6 +520,18 @@ def oracle_modules(rng, n, R):
             ("Elasticity", lambda: MF.Elasticity(first_parameter=0.5, second_parameter=2.0, mode=mode, spacing=spacing, reduction=red)(u),
              lambda: L.elasticity_loss(u, first_parameter=0.5, second_parameter=2.0, mode=mode, spacing=spacing, reduction=red)),
             ("GradLoss", lambda: MF.GradLoss(p=2, q=1, mode=mode, spacing=spacing, reduction=red)(u), lambda: L.grad_loss(u, p=2, q=1, mode=mode, spacing=spacing, reduction=red)),
+        ]
+        for p_, q_ in ((2, 0), (2, None), (3, None), (1, 1), (4, 2), (3, 0)):
+            pairs.append((f"GradLoss", (lambda p_=p_, q_=q_: MF.GradLoss(p=p_, q=q_, mode=mode, spacing=spacing, reduction=red)(u)),
+                          (lambda p_=p_, q_=q_: L.grad_loss(u, p=p_, q=q_, mode=mode, spacing=spacing, reduction=red))))
+        # defaults (spacing=None on a non-square grid) and the spline mode with a stride
+        st_ = rng.choice([2, 3])
+        pairs += [
+            ("Diffusion", lambda: MF.Diffusion(reduction=red)(u), lambda: L.diffusion_loss(u, reduction=red)),
+            ("TotalVariation", lambda: MF.TotalVariation(reduction=red)(u), lambda: L.total_variation_loss(u, reduction=red)),
+            ("Bending", lambda: MF.Bending(mode="bspline", stride=st_, reduction=red)(u), lambda: L.bending_loss(u, mode="bspline", stride=st_, reduction=red)),
+            ("Elasticity", lambda: MF.Elasticity(first_parameter=0.5, second_parameter=2.0, mode="bspline", stride=st_, reduction=red)(u),
+             lambda: L.elasticity_loss(u, first_parameter=0.5, second_parameter=2.0, mode="bspline", stride=st_, reduction=red)),
         ]
         for name, mod, fun in pairs:
             R.tick("modules")
